@@ -85,6 +85,24 @@ func (e *E) mkConfig(in map[string]interface{}) *ucfg.Config {
 				c = root2
 			}
 		}
+	case 3:
+		// top-level lists with >= 2 elements are assembled by a prepend merge: tail first, head merged in front
+		base := map[string]interface{}{}
+		head := map[string]interface{}{}
+		for k, v := range in {
+			if l, ok := v.([]interface{}); ok && len(l) >= 2 {
+				base[k] = l[1:]
+				head[k] = l[:1]
+			} else {
+				base[k] = v
+			}
+		}
+		e.R.MustComplete("NewFrom", func() { c, err = ucfg.NewFrom(base, opts...) })
+		if err == nil && len(head) > 0 {
+			popts := append(append([]ucfg.Option{}, opts...), ucfg.PrependValues)
+			e.R.MustComplete("Merge", func() { err = c.Merge(head, popts...) })
+			e.R.Probe("unpack: config produced by a history that moved list elements")
+		}
 	default:
 		e.R.MustComplete("NewFrom", func() { c, err = ucfg.NewFrom(in, opts...) })
 	}
@@ -280,7 +298,7 @@ func (e *E) checkError(err error, op string, paths []string, lenient bool, what 
 	if !named && len(paths) > 0 {
 		e.fail("error-names", op, map[string]string{"what": what, "want": strings.Join(paths, "|"), "msg": msg}, "Unpack failed (%s); the error does not name the setting at fault (%s): %s", what, strings.Join(paths, " or "), msg)
 	}
-	if e.Source != "" && !lenient && !strings.Contains(msg, e.Source) {
+	if e.Source != "" && !lenient && len(paths) > 0 && !strings.Contains(msg, e.Source) {
 		e.fail("error-source", op, map[string]string{"what": what, "msg": msg}, "Unpack failed (%s); the error does not mention the source %q the value was loaded from: %s", what, e.Source, msg)
 	}
 }
@@ -291,7 +309,12 @@ func Run(r *sim.R, prop string) {
 	t := r.T
 	e := &E{R: r, Prop: prop, G: &gen{r: r}}
 	r.Order = t.Weighted([]int{3, 2, 1}, "order-policy")
-	e.S = e.G.genStruct(0)
+	if t.Chance(1, 6, "named-top-level") {
+		e.S = topVStruct()
+		r.Probe("unpack: top-level target type with its own Validate method")
+	} else {
+		e.S = e.G.genStruct(0)
+	}
 	e.C = e.G.genCase(e.S, "", 0)
 	e.C.bind()
 	e.In = e.C.input()
@@ -300,7 +323,7 @@ func Run(r *sim.R, prop string) {
 		e.Source = "file" + itoa(e.G.next()) + ".yml"
 		e.Opts = append(e.Opts, ucfg.MetaData(ucfg.Meta{Source: e.Source}))
 	}
-	e.Hist = t.Weighted([]int{3, 1, 1}, "config-history")
+	e.Hist = t.Weighted([]int{3, 1, 1, 1}, "config-history")
 	r.Tracef("type %s", describeType(e.S, ""))
 	r.Tracef("config %v (history %d, source %q)", e.In, e.Hist, e.Source)
 
@@ -385,6 +408,8 @@ func (e *E) pathsOfHit(h Hit) ([]string, bool) {
 				match = fc.F.Kind == KVStr
 			case "Inner":
 				match = fc.F.Kind == KInner || fc.F.Kind == KPInner
+			case "TopV":
+				match = false
 			}
 		case "Unpack":
 			match = "U"+strings.TrimPrefix(fc.F.Kind.String(), "U") == h.ID
@@ -437,7 +462,7 @@ func (e *E) pathsOfHit(h Hit) ([]string, bool) {
 // Validate method must have had it called.
 func (e *E) checkTraversal(result reflect.Value, log []Hit) {
 	seenCheck := map[string][]string{}
-	seenValidate := map[string]map[string]bool{"VInt": {}, "VStr": {}, "Inner": {}}
+	seenValidate := map[string]map[string]bool{"VInt": {}, "VStr": {}, "Inner": {}, "TopV": {}}
 	for _, h := range log {
 		switch h.Kind {
 		case "simcheck":
@@ -507,6 +532,9 @@ func (e *E) checkTraversal(result reflect.Value, log []Hit) {
 		}
 	}
 	walk(e.C, result)
+	if tv, ok := result.Interface().(TopV); ok && !seenValidate["TopV"][fmt.Sprint(tv.A)] {
+		e.fail("validators-run", "Unpack", map[string]string{"field": "", "kind": "TopV"}, "Unpack succeeded but Validate() of the target struct itself was never called on its final value")
+	}
 }
 
 func fieldValue(f reflect.Value) interface{} {
